@@ -5,7 +5,7 @@
    CRS parsing and the YAML text layer are oracles (function / table arguments), never axioms. *)
 From Coq Require Import Reals ZArith Bool List Lra Lia PrimFloat.
 From PR Require Import Base.Num Base.RNum Base.F64 Model.AreaConfig Model.AreaYaml Model.C13_run
-     Proofs.C13_base Proofs.C13_sets Proofs.C13_contra Proofs.C13_missing Proofs.C13_round Proofs.C13_yaml.
+     Gen.GenC13 Proofs.C13_base Proofs.C13_sets Proofs.C13_contra Proofs.C13_missing Proofs.C13_round Proofs.C13_yaml Proofs.C13_gen.
 Import ListNotations.
 Open Scope R_scope.
 
@@ -98,6 +98,13 @@ Proof. exact round_dim_up. Qed.
 Theorem C13_round_shape_down : forall x : R, x - IZR (Raux.Zfloor x) < c_001 RO -> round_dim RO x = Raux.Zfloor x.
 Proof. exact round_dim_down. Qed.
 Print Assumptions C13_round_shape_up.
+(* the tie to the source: _round_shape and _sign as regenerated from /repo on every run (coq/Gen/GenC13.v) are the model's *)
+Theorem C13_generated_round_shape_is_model :
+  forall s : R * R, gen_round_shape RO s tt tt = (round_dim RO (fst s), round_dim RO (snd s)).
+Proof. exact gen_round_shape_is_model. Qed.
+Print Assumptions C13_generated_round_shape_is_model.
+Theorem C13_generated_sign_is_model : forall x : R, IZR (gen_sign RO x) = signT RO x.
+Proof. exact gen_sign_is_model. Qed.
 Example C13_round_shape_ex : round_dim RO 7 = 7%Z /\ 1 / 100 - 1 / 10 ^ 17 < c_001 RO < 1 / 100 + 1 / 10 ^ 17.
 Proof. split; [apply (round_dim_exact 7)|apply c001_bounds]. Qed.
 
